@@ -83,7 +83,7 @@ pub fn values(tier: Tier) -> Vec<(String, Term)> {
     for s in ["plain", "a\"), admin(\"b", "\"; allow if true; //", "{p}", "$x", "\\", "line\nbreak", "x\") <- true; deny if true; r(\"", "ed25519/00", "", "trusting authority", "/* */"] {
         v.push((format!("string:{}", s.escape_debug()), b::string(s)));
     }
-    for s in hostile_strings(tier.pick(3, 3)) {
+    for s in hostile_strings(tier.pick(3, 4)) {
         v.push((format!("string:{}", s.escape_debug()), b::string(&s)));
     }
     v
@@ -467,7 +467,7 @@ pub fn run(tier: Tier) {
     // ---- code_with_params on block / biscuit / authorizer builders, with extra unknown names
     let cwp = AtomicUsize::new(0);
     temps.par_iter().for_each(|t| {
-        for (vname, v) in vals.iter().take(tier.pick(400, usize::MAX)) {
+        for (vname, v) in vals.iter().take(tier.pick(5000, usize::MAX)) {
             for bound in [true, false] {
                 cwp.fetch_add(1, Ordering::Relaxed);
                 let mut params: HashMap<String, Term> = HashMap::new();
@@ -531,7 +531,7 @@ pub fn run(tier: Tier) {
         "code_with_params_cases": cwp.load(Ordering::Relaxed),
         "exhaustive": true,
         "samples": samples_out.take(),
-        "rule": "templates with a parameter in every position (fact term; set / array member; map value; map key; nested two levels; rule head / body, nested; expression operand; collection and map literals inside expressions; closure and nested closure bodies; lazy operand; scopes of rules, checks, policies; several parameters incl. one used twice and one shared by alternatives) x every value (all term kinds; strings made of Datalog syntax and all strings up to the length bound over the hostile alphabet; public keys of both algorithms) x every subset of bound parameters x strict / lenient setters: fully bound => the item after conversion equals the item built by direct substitution, adds to the builders, and prints to text that parses back to it; partially bound => refused on add; unknown names reported by strict setters; code_with_params on Block / Biscuit / Authorizer builders with extra unknown names (quick: the first 400 values = typed values, syntax strings and all strings up to length 2; thorough: every value); no panic anywhere. distinct_nontrivial = fully bound cases",
+        "rule": "templates with a parameter in every position (fact term; set / array member; map value; map key; nested two levels; rule head / body, nested; expression operand; collection and map literals inside expressions; closure and nested closure bodies; lazy operand; scopes of rules, checks, policies; several parameters incl. one used twice and one shared by alternatives) x every value (all term kinds; strings made of Datalog syntax and all strings up to the length bound over the hostile alphabet; public keys of both algorithms) x every subset of bound parameters x strict / lenient setters: fully bound => the item after conversion equals the item built by direct substitution, adds to the builders, and prints to text that parses back to it; partially bound => refused on add; unknown names reported by strict setters; code_with_params on Block / Biscuit / Authorizer builders with extra unknown names (every value up to length 3 of the sweep; thorough: up to length 4); no panic anywhere. distinct_nontrivial = fully bound cases",
     });
     ctx.finish("exploration", cov, vec!["the direct substitution is done by the harness on the parsed AST".into()]);
 }
